@@ -673,6 +673,51 @@ def probes(rep):
     rep.extra["out_of_universe_probes"] = out
 
 
+def mutable_data_stream(rep, rng, count):
+    """Oracle-only stream on the real objects: boxes carrying MUTABLE data (lists, dicts, sets - the
+    library documents `data` as arbitrary payload).  Equality and hash are functions of the current
+    value: after the payload is updated in place, a value that was hashed before still hashes like
+    an equal value built afresh, and its repr still evaluates to an equal value."""
+    from discopy import monoidal, rigid
+    bad = 0
+    for k in range(count):
+        mod = monoidal if k % 2 == 0 else rigid
+        Ty, Box, Id = mod.Ty, mod.Box, mod.Id
+        x, y = Ty("x"), Ty("y")
+        payload = rng.choice([[1], [], {"a": 1}, [[2]], [0, 1]])
+        f = Box("f", x, y, data=payload)
+        g = Box("g", y, x)
+        d = rng.choice([lambda: f >> g, lambda: f @ g, lambda: Id(x) @ f >> Id(x) @ g, lambda: (f >> g)[::-1]])()
+        rep.count("stream:mutable-data")
+        what = None
+        try:
+            h0 = hash(d)
+            table = {d: "v"}
+            if isinstance(payload, list):
+                payload.append(rng.randint(5, 9))
+            else:
+                payload["b"] = 2
+            import copy
+            f2 = Box("f", x, y, data=copy.deepcopy(payload))
+            fresh = {0: lambda: f2 >> g, 1: lambda: f2 @ g}
+            # rebuild the same shape as d from the fresh box
+            d2 = eval(repr(d), {**vars(mod), "Ob": getattr(mod, "Ob", None) or __import__("discopy.cat", fromlist=["Ob"]).Ob})
+            if d != d2 or d2 != d:
+                what = "repr of a diagram whose box data was updated in place does not evaluate to an equal value"
+            elif hash(d) != hash(d2):
+                what = ("equal diagrams hash differently after the data of a box was updated in place "
+                        "(the first was hashed before the update)")
+        except Exception as exc:   # noqa
+            what = "mutable-data stream raised %s: %s" % (type(exc).__name__, exc)
+        if what:
+            bad += 1
+            rep.count("oracle:mutable-data:FAIL")
+            if bad <= 3:
+                rep.violation(what, {"class": mod.__name__, "diagram": repr(d)})
+        else:
+            rep.count("oracle:mutable-data:pass")
+
+
 def run(tier, seed):
     rep = Report("C03", tier, seed)
     proof_ok = common.proof_stage(rep, "C03")
@@ -699,6 +744,7 @@ def run(tier, seed):
         cat_stream(chk, seed, tier)
         numeric_tower(rep)
         probes(rep)
+    mutable_data_stream(rep, random.Random(seed + 303), 60 if tier == "quick" else 1000)
     base.settle(rep, "C03", proof_ok, "C03")
     return rep.finish(
         rule="classes monoidal and rigid, kinds object / type / box (incl. Swap, Cup, Cap) / diagram / "
